@@ -7,10 +7,15 @@ from pel.peltool import peltool
 FUNCTIONS = ["pel.peltool.peltool.considerPEL", "pel.peltool.peltool.considerPELIfSeverityMatches",
              "pel.peltool.user_header.UserHeader.isHidden", "pel.peltool.user_header.UserHeader.isServiceable"]
 GROUPS = [0, 1, 2, 4, 5, 6, 7]
+LARGE = ["set:" + "".join(str(g) for g in GROUPS if g not in drop) for drop in ([], [0], [7], [1, 2], [4, 5, 6], [0, 2, 5])]
 HARNESSES = [
-    {"fn": "h_consider", "cases": ["k:0", "k:1", "k:2", "k:3"], "quick_cases": ["k:0", "k:2"],
+    {"fn": "h_consider", "cases": ["k:0", "k:1", "k:2", "k:3"] + LARGE, "quick_cases": ["k:0", "k:2", LARGE[0]],
      "timeout": {"quick": 90, "thorough": 600}},
+    {"fn": "h_lookup", "cases": [""], "timeout": {"quick": 60, "thorough": 300}},
+    {"fn": "h_mapping", "cases": ["list:sw", "list:sev", "count:sw6", "all:sw6", "count:sev"], "quick_cases": ["list:sev", "all:sw6"],
+     "timeout": {"quick": 90, "thorough": 300}},
 ]
+FUNCTIONS += ["pel.peltool.peltool.main (option -> Config mapping)"]
 BOUNDS = {"severity byte": "0..255 (symbolic)", "action flags": "0..65535 (symbolic)",
           "switches": "6 symbolic booleans", "severity groups": "list of k symbolic digits in {0,1,2,4,5,6,7}, k = 0..3"}
 ASSUMPTIONS = ["UserHeader constructed directly with symbolic eventSeverity/actionFlags (initialisation skipped)"]
@@ -56,12 +61,14 @@ def h_consider() -> bool:
     flags = sym_int("flags", 0, 0xFFFF)
     every, serv, nserv = sym_bool("every"), sym_bool("serv"), sym_bool("nserv")
     hidden, term, only = sym_bool("hidden"), sym_bool("term"), sym_bool("only")
-    ngroups = int(CASE.split(":")[1]) if CASE.startswith("k:") else 2
     groups = []
-    for i in range(ngroups):
-        g = sym_int("g%d" % i, 0, 7)
-        assume(g != 3)
-        groups.append(g)
+    if CASE.startswith("set:"):
+        groups = [int(ch) for ch in CASE[4:]]           # concrete larger sets (4..7 groups)
+    else:
+        for i in range(int(CASE.split(":")[1])):
+            g = sym_int("g%d" % i, 0, 7)
+            assume(g != 3)
+            groups.append(g)
     cfg = Config()
     cfg.every_pel, cfg.serviceable, cfg.non_serviceable = bool(every), bool(serv), bool(nserv)
     cfg.hidden, cfg.critSysTerm, cfg.only = bool(hidden), bool(term), bool(only)
@@ -70,3 +77,73 @@ def h_consider() -> bool:
     want = spec(sev, flags, cfg.every_pel, cfg.serviceable, cfg.non_serviceable, cfg.hidden,
                 cfg.critSysTerm, cfg.only, groups)
     return verdict(got == bool(want), obs={"got": got})
+
+
+def h_lookup() -> bool:
+    """
+    post: _
+    """
+    # an id / SRC look-up given without selection options considers every PEL
+    sev = sym_int("sev", 0, 255)
+    flags = sym_int("flags", 0, 0xFFFF)
+    which = sym_int("which", 0, 3)
+    cfg = Config()
+    if which == 0:
+        cfg.plid = "50001A31"
+    elif which == 1:
+        cfg.src = "BD8D"
+    elif which == 2:
+        cfg.bmcID = "0"            # what the command line hands over for --bmc-id 0
+    else:
+        cfg.pelID = "50001A32"
+    got = bool(peltool.considerPEL(_uh(sev, flags), cfg))
+    return verdict(got, obs={"got": got})
+
+
+def h_mapping() -> bool:
+    """
+    post: _
+    """
+    from vlib.stubs import World, Namespace, ARG_DEFAULTS, run_main, patched
+    names = [n for n, _ in sorted(peltool.severityGroupValues.items(), key=lambda kv: kv[1])]
+    mode_, dims = CASE.split(":")
+    allsw = ("every_pel", "serviceable", "non_serviceable", "hidden", "critSysTerm", "only", "hex", "reverse", "skip_plugins")
+    symsw = {"sw": allsw, "sw6": allsw[:6], "sev": ()}[dims]
+    sw = {k: (bool(sym_bool(k)) if k in symsw else False) for k in allsw}
+    nsev = sym_int("nsev", 0, 2 if dims == "sev" else 0)
+    picks = [sym_int("s%d" % i, 0, 6) for i in range(2)]
+    sevs = None
+    if nsev == 1:
+        sevs = [names[int(concrete_choice(picks[0], 7))]]
+    elif nsev == 2:
+        sevs = [names[int(concrete_choice(picks[0], 7))], names[int(concrete_choice(picks[1], 7))]]
+    ns = Namespace(**dict(ARG_DEFAULTS, path="/pels", severities=sevs, extension=None, **sw))
+    mode = {"list": "list", "count": "show_pel_count", "all": "all"}[mode_]
+    setattr(ns, mode, True)
+    seen = []
+    fn = {"list": "listOption", "count": "printPELCount", "all": "extractAllPELsData"}[mode_]
+    w = World(files=[])
+    with patched(peltool, **{fn: lambda path, config: seen.append((path, config))}):
+        status = run_main(peltool, w, ns)
+    conds = [status == 0, len(seen) == 1]
+    if len(seen) == 1:
+        path, c = seen[0]
+        digits = dict(SNAPG)
+        conds += [path == "/pels", c.every_pel == sw["every_pel"], c.serviceable == sw["serviceable"],
+                  c.non_serviceable == sw["non_serviceable"], c.hidden == sw["hidden"], c.critSysTerm == sw["critSysTerm"],
+                  c.only == sw["only"], c.hex == sw["hex"], c.rev == sw["reverse"], c.allow_plugins == (not sw["skip_plugins"]),
+                  list(c.severities) == [digits[n] for n in (sevs or [])],
+                  c.plid is None and c.src is None and c.bmcID is None and c.pelID is None]
+    return verdict(sym_all(conds), obs={"status": status, "calls": len(seen)})
+
+
+SNAPG = [("Informational", 0), ("Recovered", 1), ("Predictive", 2), ("Unrecoverable", 4), ("Critical", 5),
+         ("Diagnostic", 6), ("Symptom", 7)]
+
+
+def concrete_choice(x, n):
+    """value of a small symbolic int, by solver-resolved forks"""
+    for cand in range(n):
+        if x == cand:
+            return cand
+    return 0
